@@ -157,3 +157,51 @@ func VH_C08_poolUsable() {
 	p.Wait()
 	vCover("pool-barrier-passed")
 }
+
+// the limit that counts is the one configured when the run starts: the same node, run once with c1
+// and then — reconfigured through the builder — with c2, is bounded by c2 and can use all of c2
+func VH_C08_rerun() {
+	vUnwind(24)
+	m := &bMon{}
+	maxc := vParam("c", 2)
+	c1, c2 := vNondet[int]("c1"), vNondet[int]("c2")
+	vAssume(0 <= c1 && c1 <= maxc && 1 <= c2 && c2 <= maxc && c1 != c2) // c1 == c2: VH_C08_bound / _usable
+	c1, c2 = vConcrete(c1), vConcrete(c2)
+	m.n, m.c, m.ctx = 1, c1, vNewCtx()
+	m.firstFail, m.cancelAt = -1, -1
+	phase := 1
+	exec := func(ctx context.Context, item Result) (Result, error) {
+		k := bIndex(item)
+		if phase == 1 {
+			return item, nil
+		}
+		vMonC(1, func() {
+			m.inflight++
+			vAssert(m.inflight <= c2, "never-more-than-c-executions-in-flight")
+		})
+		if k < c2 {
+			// the first c2 items are mutually dependent: each waits until all c2 are in flight
+			vBlockUntil(func() bool { return m.maxIn >= c2 || m.inflight >= c2 })
+			vMonC(3, func() { m.maxIn = c2 })
+		}
+		vMonC(2, func() { m.inflight-- })
+		return item, nil
+	}
+	b := bNode(m, exec)
+	_, err1 := Run(m.ctx, b, NewSharedStore())
+	vAssume(err1 == nil)
+	phase = 2
+	m.n, m.posts = c2, 0
+	if c2 < c1 {
+		m.n++ // one more item than workers: the lowered bound must hold
+	}
+	b.WithBatchConcurrency(c2)
+	_, err := Run(m.ctx, b, NewSharedStore())
+	vAssert(err == nil && m.posts == 1, "c-mutually-dependent-items-complete")
+	switch {
+	case c2 > c1:
+		vCover("limit-raised-between-runs")
+	case c2 < c1:
+		vCover("limit-lowered-between-runs")
+	}
+}
